@@ -24,9 +24,11 @@ CONSTANTS Bug_ClauseLoopIgnoresCut,   \* the clause loop of a cut call tries lat
           Bug_OrTailAfterCut,         \* a cut disjunction still enters its later alternatives
           Bug_NotStaysArmed           \* a failed not(...) succeeds when asked again
 
-VARIABLES prog, query, nodes, stack, ret, nextId, stop, outbuf, hist, phase, acts, steps
+VARIABLES prog, query, nodes, stack, ret, nextId, stop, outbuf, hist, phase, acts, steps,
+          fireAt,    \* the query timer fires just before the fireAt-th count_rules() of this request (0: never)
+          crSeen     \* count_rules() calls made during this request
 
-svars == <<prog, query, nodes, stack, ret, nextId, stop, outbuf, hist, phase, acts, steps>>
+svars == <<prog, query, nodes, stack, ret, nextId, stop, outbuf, hist, phase, acts, steps, fireAt, crSeen>>
 
 NoneR     == [some |-> FALSE, b |-> <<>>]
 SomeR(b)  == [some |-> TRUE, b |-> b]
@@ -56,6 +58,13 @@ MakeNode(P, ns, goal, ss, parent, stopped) ==
       [] OTHER ->
             <<Append(ns, Node("bip", goal, ss, parent)), id>>
 
+(* make_solution_node() calls count_rules() -- which reads the stop flag --    *)
+(* exactly when the leftmost leaf of the goal is a call                         *)
+RECURSIVE LeafCall(_)
+LeafCall(g) == IF g.g = "call" THEN TRUE
+               ELSE IF g.g \in {"and", "or", "not", "time"} THEN LeafCall(g.gs[1])
+               ELSE FALSE
+
 (* set_no_backtracking(): this node, every ancestor, and each ancestor's head  *)
 RECURSIVE FlagUp(_, _)
 FlagUp(ns, p) ==
@@ -80,7 +89,13 @@ At(kind, pc) == SRunning /\ STop.pc = pc /\ TN.kind = kind
 Tick(name) == /\ acts' = acts \cup {name}
               /\ steps' = steps + 1
 Return(r, name) == /\ stack' = Popped /\ ret' = r /\ Tick(name)
-Same1 == UNCHANGED <<prog, query, nextId, stop, hist, phase>>
+Same1 == UNCHANGED <<prog, query, nextId, stop, hist, phase, fireAt, crSeen>>
+Same2 == UNCHANGED <<prog, query, nextId, hist, phase, fireAt>>
+(* the stop flag as the count_rules() of a new node for `goal` reads it: the     *)
+(* (virtual) query timer may fire just before                                    *)
+StopAt(goal)  == stop \/ (LeafCall(goal) /\ fireAt > 0 /\ crSeen + 1 = fireAt)
+Counted(goal) == /\ crSeen' = IF LeafCall(goal) THEN crSeen + 1 ELSE crSeen
+                 /\ stop' = StopAt(goal)
 
 (* ---------------- request / reply ---------------- *)
 Ask ==
@@ -90,7 +105,7 @@ Ask ==
     /\ outbuf' = <<>>
     /\ ret' = NoneR
     /\ Tick("Ask")
-    /\ UNCHANGED <<prog, query, nodes, nextId, stop, hist>>
+    /\ UNCHANGED <<prog, query, nodes, nextId, stop, hist, fireAt, crSeen>>
 
 Reply ==
     /\ phase = "run" /\ stack = <<>>
@@ -98,7 +113,7 @@ Reply ==
                              ans |-> IF ret.some THEN AnswerOf(query, ret.b) ELSE <<>>])
     /\ phase' = "idle"
     /\ Tick(IF ret.some THEN "Answer" ELSE "NoMore")
-    /\ UNCHANGED <<prog, query, nodes, stack, ret, nextId, stop, outbuf>>
+    /\ UNCHANGED <<prog, query, nodes, stack, ret, nextId, stop, outbuf, fireAt, crSeen>>
 
 (* ---------------- next_solution(): entry ---------------- *)
 EnterBlocked ==
@@ -124,15 +139,17 @@ AndTailNone ==       \* the old tail is exhausted: ask the head for its next sol
 AndHeadRet ==
     /\ At("and", "A3")
     /\ IF ~ret.some
-       THEN Return(NoneR, "AndHeadNone") /\ UNCHANGED nodes
+       THEN Return(NoneR, "AndHeadNone") /\ UNCHANGED <<nodes, stop, crSeen>>
        ELSE IF TN.opTail = <<>>
-       THEN Return(ret, "AndHeadLast") /\ UNCHANGED nodes
-       ELSE LET r == MakeNode(prog, nodes, AndG(TN.opTail), ret.b, STop.n, stop) IN
+       THEN Return(ret, "AndHeadLast") /\ UNCHANGED <<nodes, stop, crSeen>>
+       ELSE LET g == AndG(TN.opTail)
+                r == MakeNode(prog, nodes, g, ret.b, STop.n, StopAt(g)) IN
             /\ nodes' = [r[1] EXCEPT ![STop.n].tail = r[2]]
             /\ stack' = CallOn(r[2], "A4")
             /\ ret' = ret
+            /\ Counted(g)
             /\ Tick("AndHeadSome")
-    /\ UNCHANGED outbuf /\ Same1
+    /\ UNCHANGED outbuf /\ Same2
 
 AndNewTailRet ==
     /\ At("and", "A4")
@@ -154,16 +171,18 @@ OrTailRet ==
 
 OrHeadRet ==
     /\ At("or", "O2")
-    /\ IF ret.some THEN Return(ret, "OrHeadSome") /\ UNCHANGED nodes
-       ELSE IF TN.opTail = <<>> THEN Return(NoneR, "OrHeadNoneLast") /\ UNCHANGED nodes
+    /\ IF ret.some THEN Return(ret, "OrHeadSome") /\ UNCHANGED <<nodes, stop, crSeen>>
+       ELSE IF TN.opTail = <<>> THEN Return(NoneR, "OrHeadNoneLast") /\ UNCHANGED <<nodes, stop, crSeen>>
        ELSE IF TN.noBack /\ ~Bug_OrTailAfterCut
-       THEN Return(NoneR, "OrHeadNoneCut") /\ UNCHANGED nodes     \* a cut disjunction has no later alternatives
-       ELSE LET r == MakeNode(prog, nodes, OrG(TN.opTail), TN.ss, STop.n, stop) IN
+       THEN Return(NoneR, "OrHeadNoneCut") /\ UNCHANGED <<nodes, stop, crSeen>>     \* a cut disjunction has no later alternatives
+       ELSE LET g == OrG(TN.opTail)
+                r == MakeNode(prog, nodes, g, TN.ss, STop.n, StopAt(g)) IN
             /\ nodes' = [r[1] EXCEPT ![STop.n].tail = r[2]]
             /\ stack' = CallOn(r[2], "O1")
             /\ ret' = ret
+            /\ Counted(g)
             /\ Tick("OrHeadNone")
-    /\ UNCHANGED outbuf /\ Same1
+    /\ UNCHANGED outbuf /\ Same2
 
 (* ---------------- Not ---------------- *)
 NotCall ==
@@ -201,27 +220,28 @@ CxClauses == ClausesFor(Key(TN.goal.t), prog)
 CxTryClause ==
     /\ At("cx", "C2")
     /\ IF TN.noBack /\ ~Bug_ClauseLoopIgnoresCut
-       THEN Return(NoneR, "CxCutStops") /\ UNCHANGED <<nodes, nextId, phase>>      \* a cut call tries no later clause
+       THEN Return(NoneR, "CxCutStops") /\ UNCHANGED <<nodes, nextId, phase, stop, crSeen>>      \* a cut call tries no later clause
        ELSE IF TN.ruleIdx >= TN.nRules
-       THEN Return(NoneR, "CxNoMoreClauses") /\ UNCHANGED <<nodes, nextId, phase>>
+       THEN Return(NoneR, "CxNoMoreClauses") /\ UNCHANGED <<nodes, nextId, phase, stop, crSeen>>
        ELSE LET rc == RenameClause(CxClauses[TN.ruleIdx + 1], nextId)
                 u  == UnifyBig(rc.head, TN.goal.t, TN.ss)
                 n1 == [nodes EXCEPT ![STop.n].ruleIdx = @ + 1]     \* `child` is NOT reset here: after a rule whose
                                                                     \* body failed it still points to that stale body node
             IN IF u.status \notin {"ok", "fail"}
-               THEN /\ phase' = "outside" /\ UNCHANGED <<nodes, stack, ret, nextId>> /\ Tick("Outside")
+               THEN /\ phase' = "outside" /\ UNCHANGED <<nodes, stack, ret, nextId, stop, crSeen>> /\ Tick("Outside")
                ELSE IF u.status = "fail"
                THEN /\ nodes' = n1 /\ nextId' = nextId            \* the fallback id is restored
-                    /\ UNCHANGED <<stack, ret, phase>> /\ Tick("CxHeadFail")
+                    /\ UNCHANGED <<stack, ret, phase, stop, crSeen>> /\ Tick("CxHeadFail")
                ELSE IF rc.body = NoGoal
                THEN /\ nodes' = n1 /\ nextId' = nextId + rc.k
-                    /\ Return(SomeR(u.bind), "CxHeadOkFact") /\ UNCHANGED phase
-               ELSE LET r == MakeNode(prog, n1, rc.body, u.bind, STop.n, stop) IN
+                    /\ Return(SomeR(u.bind), "CxHeadOkFact") /\ UNCHANGED <<phase, stop, crSeen>>
+               ELSE LET r == MakeNode(prog, n1, rc.body, u.bind, STop.n, StopAt(rc.body)) IN
                     /\ nodes' = [r[1] EXCEPT ![STop.n].child = r[2]]
                     /\ nextId' = nextId + rc.k
                     /\ stack' = CallOn(r[2], "C3") /\ ret' = ret /\ UNCHANGED phase
+                    /\ Counted(rc.body)
                     /\ Tick("CxHeadOkRule")
-    /\ UNCHANGED <<prog, query, stop, hist, outbuf>>
+    /\ UNCHANGED <<prog, query, hist, outbuf, fireAt>>
 
 CxBodyRet ==
     /\ At("cx", "C3")
@@ -246,7 +266,7 @@ BipRun ==
                       /\ Return(IF r.st = "ok" THEN SomeR(r.b) ELSE NoneR,
                                 IF r.st = "ok" THEN "BipOk" ELSE "BipFail")
                       /\ UNCHANGED phase
-    /\ UNCHANGED <<prog, query, nextId, stop, hist>>
+    /\ UNCHANGED <<prog, query, nextId, stop, hist, fireAt, crSeen>>
 
 SolverStep == \/ EnterBlocked
         \/ AndEnter \/ AndTailNone \/ AndHeadRet \/ AndNewTailRet
